@@ -35,6 +35,7 @@ import (
 	"verif/harness/c20"
 	"verif/harness/c17"
 	"verif/harness/core"
+	"verif/harness/sched"
 )
 
 var runners = map[string]core.Runner{
@@ -118,6 +119,7 @@ func main() {
 		fmt.Fprintln(os.Stderr, "no runner for", *prop)
 		os.Exit(3)
 	}
+	run = sched.Wrap(run) // schedule search of the atomicity tie (harness/sched): scenarios registered for this property
 	c := core.NewCtx(*prop, *seed, *tier, *model, *corpus)
 	for _, k := range strings.Split(*known, ",") {
 		if k != "" {
